@@ -32,10 +32,17 @@ const OPS: &[(&str, usize)] = &[
     ("set_text", 2), ("set_comment", 1), ("set_pi_data", 1), ("set_name", 1), ("text_content_set", 2), ("new", 10), ("cons", 1),
 ];
 
+/// The calls of suite_fcreation.rs, with their weights here.
+const CREATION_OPS: &[(&str, usize)] = &[
+    ("new_doc_with", 8), ("append_text", 6), ("append_element", 3), ("append_comment", 2), ("append_pi", 2), ("append_namespace", 2),
+    ("set_attribute", 1), ("remove_attribute", 1), ("set_namespace", 1), ("remove_namespace", 1), ("el_set_name", 1),
+    ("attr_set_value", 1), ("ns_set_ns", 1), ("pi_set_target", 1), ("text_push", 1), ("value_mut_set", 1),
+];
+
 fn pick_op(rng: &mut Rng) -> &'static str {
-    let total: usize = OPS.iter().map(|o| o.1).sum();
+    let total: usize = OPS.iter().chain(CREATION_OPS.iter()).map(|o| o.1).sum();
     let mut x = rng.below(total);
-    for (n, w) in OPS {
+    for (n, w) in OPS.iter().chain(CREATION_OPS.iter()) {
         if x < *w {
             return n;
         }
@@ -136,6 +143,19 @@ fn step(s: &mut Session, sink: &mut Sink, op: &str, req: &str, x: usize, y: usiz
     let spec2_op = matches!(op, "clone" | "map_insert" | "map_remove" | "set_text" | "set_comment" | "set_pi_data" | "set_name" | "text_content_set");
     let nonnormal = *cons && has_adjacent_text(s);
     let pre = if spec_op { Some(observe(s, op, s.nodes[x], s.nodes[y])) } else { None };
+    // the compositions "create a node, then append it" and `new_document_with_element`
+    let creation_move = matches!(op, "new_doc_with" | "append_text" | "append_element" | "append_comment" | "append_pi");
+    let creation_other = crate::suite_fcreation::is_creation_op(op) && !creation_move;
+    let pre_total = total_text(s);
+    // for append_text: the text node the new data must be merged into (the earlier node survives)
+    let tail_text: Option<(Node, String)> = if op == "append_text" {
+        s.xot.last_child(s.nodes[x]).and_then(|c| s.xot.text_str(c).map(|t| (c, t.to_string())))
+    } else {
+        None
+    };
+    if let Some(k) = crate::suite_fcreation::classify(s, req) {
+        sink.stat(&format!("creation.{}", k));
+    }
     let mark = sink.lines.len();
     let resp = s.exec(sink, req);
     sink.stat(&format!("resp.{}", resp.split(' ').next().unwrap()));
@@ -145,7 +165,49 @@ fn step(s: &mut Session, sink: &mut Sink, op: &str, req: &str, x: usize, y: usiz
     if op == "cons" {
         *cons = req.ends_with('1');
     }
-    if spec2_op && resp.starts_with("ok") {
+    if creation_move && resp.starts_with("ok") {
+        if nonnormal {
+            sink.stat("spec.prestate-has-adjacent-text");
+        }
+        // with consolidation on, the call must not leave adjacent text nodes behind: neither at the
+        // place the element left (`new_document_with_element` of an attached element) nor under
+        // the parent (`append_text` after a trailing text node)
+        let left_adjacent = *cons && !nonnormal && has_adjacent_text(s);
+        if left_adjacent {
+            sink.fail("C05", &format!("C05:{}-leaves-adjacent-text", op), &format!("{}: consolidation is on and the forest had no adjacent text nodes, afterwards it has", req), &s.history);
+        }
+        let content = erase_labels(&s.dump());
+        // pair reading: defined for every forest
+        sink.lines.insert(mark, (format!("forest specp {}", req), content.clone()));
+        sink.lines.insert(mark + 1, (format!("forest specpx {}", req), "1".into()));
+        sink.stat("specp.checked");
+        if (nonnormal && restrict) || left_adjacent {
+            sink.stat("spec.skipped");
+        } else {
+            sink.lines.insert(mark, (format!("forest spec {}", req), content));
+            sink.lines.insert(mark + 1, (format!("forest specx {}", req), "1".into()));
+            sink.stat("spec.checked");
+            sink.stat(&format!("spec.checked.{}", op));
+        }
+        // character data: nothing but the appended text appears, nothing disappears
+        let added = if op == "append_text" { crate::common::dec(req.split(' ').nth(2).unwrap()).unwrap().chars().count() } else { 0 };
+        let after = total_text(s);
+        if after != pre_total + added {
+            sink.fail("C05", "C05:move-changes-character-data", &format!("{}: the text nodes held {} characters before and {} after (the call adds {})", req, pre_total, after, added), &s.history);
+        }
+        // the appended data is merged into the trailing text node, which survives
+        if let Some((t, old)) = &tail_text {
+            if *cons {
+                let want = format!("{}{}", old, crate::common::dec(req.split(' ').nth(2).unwrap()).unwrap());
+                if s.xot.is_removed(*t) || s.xot.text_str(*t) != Some(want.as_str()) || s.xot.next_sibling(*t).is_some() {
+                    sink.fail("C05", "C05:append_text-not-merged-into-trailing-text", &format!("{}: the trailing text node should now hold `{}` and be the last child", req, want), &s.history);
+                } else {
+                    sink.stat("merge.append_text-into-trailing-text");
+                }
+            }
+        }
+    }
+    if (spec2_op || creation_other) && resp.starts_with("ok") {
         // the real post-state against the specification applied to the model's pre-state, and the
         // model's own result handle for handle
         let content = erase_labels(&s.dump());
@@ -290,7 +352,7 @@ pub fn one_history(rng: &mut Rng, sink: &mut Sink, n_ops: usize, allow_cons_off:
         let mut op = op;
         if op != "cons" && !between.is_empty() && rng.chance(1, 3) {
             b = *rng.pick(&between);
-            op = *rng.pick(&["append", "prepend", "insert_after", "insert_before", "replace"]);
+            op = *rng.pick(&["append", "prepend", "insert_after", "insert_before", "replace", "new_doc_with", "new_doc_with"]);
         }
         let (req, x, y): (String, usize, usize) = match op {
             "append" | "prepend" | "any_append" => {
@@ -325,6 +387,15 @@ pub fn one_history(rng: &mut Rng, sink: &mut Sink, n_ops: usize, allow_cons_off:
                     continue;
                 }
                 (format!("cons {}", rng.below(2)), a, a)
+            }
+            _ if crate::suite_fcreation::is_creation_op(op) => {
+                let r = if op == "new_doc_with" && between.contains(&b) && s.xot.is_element(s.nodes[b]) {
+                    format!("new_doc_with {}", b)
+                } else {
+                    crate::suite_fcreation::gen_req(op, rng, &s, &live)
+                };
+                let l: usize = r.split(' ').nth(1).unwrap().parse().unwrap();
+                (r, l, l)
             }
             _ => unreachable!(),
         };
@@ -470,6 +541,34 @@ fn exhaustive_adjacent_text(sink: &mut Sink) {
     }
 }
 
+/// Directed small scope for the calls of suite_fcreation.rs, with the specification lines and
+/// oracles of `step`; once with consolidation on, once with consolidation off.
+fn directed_creation(sink: &mut Sink) {
+    for forest in crate::suite_fcreation::directed_forests() {
+        let n: usize = forest.iter().map(|t| t.size()).sum();
+        for a in 0..n {
+            for req in crate::suite_fcreation::directed_reqs(a) {
+                for off in [false, true] {
+                    let mut s = Session::new();
+                    let mut cons = true;
+                    s.exec(sink, "reset");
+                    for t in &forest {
+                        build_ops(&mut s, sink, t);
+                    }
+                    if off {
+                        s.exec(sink, "cons 0");
+                        cons = false;
+                    }
+                    let op = req.split(' ').next().unwrap().to_string();
+                    sink.stat("creation.directed.cases");
+                    step(&mut s, sink, &op, &req, a, a, &mut cons, true);
+                    s.exec(sink, "dump");
+                }
+            }
+        }
+    }
+}
+
 pub fn run(seed: u64, count: usize, tier: &str, sink: &mut Sink) {
     let mut rng = Rng::new(seed ^ 0xC05);
     let n_ops = if tier == "quick" { 25 } else { 60 };
@@ -482,6 +581,7 @@ pub fn run(seed: u64, count: usize, tier: &str, sink: &mut Sink) {
     if tier != "search" {
         exhaustive_adjacent_text(sink);
     }
+    directed_creation(sink);
     for i in 0..count {
         one_history(&mut rng, sink, n_ops, i % 4 == 3, restrict);
     }
